@@ -42,6 +42,9 @@ def parse_cap(e: ast.AST) -> Optional[dict]:
 def _resv_call(e: ast.AST) -> Optional[dict]:
     m = match("$u.reserved($r, $d, $t)", e)
     if m:
+        if isinstance(m['t'], ast.Constant) and m['t'].value is None:
+            # reserved(r, d, None) is the all-tasks query (task=None is the parameter's default)
+            return {'u': m['u'], 'r': m['r'], 'd': m['d'], 'kind': 'all'}
         return dict(m, kind='task')
     m = match("$u.reserved($r, $d)", e)
     if m:
@@ -74,6 +77,20 @@ def parse_resv(e: ast.AST, balance_attr: str) -> Optional[dict]:
             return {'u': a['u'], 'r': a['r'], 'd': a['d'], 't': a.get('t') or b.get('t'), 'kind': 'sel-other', 'node': e}
         return None
     c = _resv_call(e)
+    if c and isinstance(c.get('t'), ast.IfExp):
+        # the selector spelled inside the argument: reserved(r, d, None if balance else task)
+        #   ==  reserved(r, d, None) if balance else reserved(r, d, task)
+        t = c['t']
+
+        def _call(arg):
+            n = ast.Call(func=e.func, args=[c['r'], c['d'], arg], keywords=[])
+            return ast.copy_location(n, e)
+        syn = ast.copy_location(ast.IfExp(test=t.test, body=_call(t.body), orelse=_call(t.orelse)), e)
+        r = parse_resv(syn, balance_attr)
+        if r:
+            r['node'] = e
+            r['as_ifexp'] = syn
+            return r
     if c:
         c['node'] = e
         return c
@@ -226,13 +243,9 @@ class PassShape:
             if match(f"{self.task}.milestone", t):
                 r['milestone'] = pol
                 continue
-            m = match(f"len({self.task}.children) == 0", t) or match(f"not {self.task}.children", t)
-            if m:
-                r['leaf'] = pol
-                continue
-            m = match(f"len({self.task}.children) > 0", t) or match(f"len({self.task}.children) != 0", t)
-            if m:
-                r['leaf'] = not pol
+            lf = self._leaf_test(t)
+            if lf is not None:
+                r['leaf'] = pol if lf else not pol
                 continue
             m = match(f"{self.task}.$a is None", t)
             if m:
@@ -242,7 +255,7 @@ class PassShape:
             if m:
                 r['is_none'][m['a']] = not pol
                 continue
-            if match(f"{self.task}.id in {self.memo}", t) and not pol:
+            if (match(f"{self.task}.id in {self.memo}", t) and not pol) or (match(f"{self.task}.id not in {self.memo}", t) and pol):
                 continue
             r['other'].append((t, pol))
         # unit propagation over negated conjunctions: not (A and B) with A known true gives not B
@@ -276,6 +289,22 @@ class PassShape:
                         changed = True
         return r
 
+    def _leaf_test(self, t):
+        """True when test t says `the task has no children`, False when it says `the task has children`, None otherwise.
+        A copy of the children (`list(task.children)`, `tuple(..)`) counts as the children."""
+        em = is_emptiness(t, True)
+        if em is None:
+            core, pol = t, True
+            while isinstance(core, ast.UnaryOp) and isinstance(core.op, ast.Not):
+                core, pol = core.operand, not pol
+            em = (core, not pol)          # bare truthiness of a sequence expression
+        if isinstance(em[0], (ast.ListComp, ast.List)):
+            return None
+        seq = strip_seq_copy(em[0])
+        if match(f"{self.task}.children", seq):
+            return bool(em[1])
+        return None
+
     def _known(self, r, v):
         """truth value of atom v under region r, or None"""
         sub = self.region_of_conds([(v, True)])
@@ -297,10 +326,8 @@ class PassShape:
             for a, p in facts.split_conj(tx, pol):
                 if match(f"{self.task}.milestone", a):
                     r['milestone'] = p
-                elif match(f"len({self.task}.children) == 0", a) or match(f"not {self.task}.children", a):
-                    r['leaf'] = p
-                elif match(f"len({self.task}.children) > 0", a) or match(f"len({self.task}.children) != 0", a):
-                    r['leaf'] = not p
+                elif self._leaf_test(a) is not None:
+                    r['leaf'] = p if self._leaf_test(a) else not p
                 elif match(f"{self.task}.$a is None", a):
                     r['is_none'][match(f"{self.task}.$a is None", a)['a']] = p
                 elif match(f"{self.task}.$a is not None", a):
@@ -325,7 +352,86 @@ class PassShape:
                     out.append((st, tgt, v, self.region(st, conds)))
         return out
 
+    # ---- memo shortcut
+    def memo_shortcut(self):
+        """the statement that makes the pass skip a task already in the memo, looked for at the top of the body behind
+        side-effect free assignments (`done = task.id in memo`).  Returns
+          ('return', if_stmt, return_stmt)   `if task.id in memo: return`
+          ('wrap', if_stmt, None)            `if task.id not in memo: <the whole pass>` as the only statement
+          ('late', stmt, None)               a memo test exists but statements with effects run before it
+          None                               no memo test found"""
+        body = [s_ for s_ in self.f.body if not (isinstance(s_, ast.Expr) and isinstance(s_.value, ast.Constant))]
+
+        def pure(e):
+            return not any(isinstance(x, (ast.Call, ast.Await, ast.Yield, ast.YieldFrom, ast.NamedExpr)) for x in ast.walk(e))
+
+        def says_in_memo(test):
+            tx = self.ex.expand(test, self.cfg.node_containing(test))
+            t, pol = facts.norm_cond(tx, True)
+            if match(f"{self.task}.id in {self.memo}", t):
+                return pol
+            if match(f"{self.task}.id not in {self.memo}", t):
+                return not pol
+            return None
+        for i, st in enumerate(body):
+            if isinstance(st, (ast.Assign, ast.AnnAssign)) and st.value is not None and pure(st.value) and \
+                    all(isinstance(t, ast.Name) for t in (st.targets if isinstance(st, ast.Assign) else [st.target])):
+                continue
+            if isinstance(st, ast.If):
+                pol = says_in_memo(st.test)
+                if pol is True and st.body and isinstance(st.body[-1], ast.Return) and len(st.body) == 1:
+                    return ('return', st, st.body[0])
+                if pol is False and not st.orelse and i == len(body) - 1:
+                    return ('wrap', st, None)
+                if pol is False and st.orelse and len(st.orelse) == 1 and isinstance(st.orelse[0], ast.Return) and i == len(body) - 1:
+                    return ('return', st, st.orelse[0])
+            break
+        for n in walk_no_nested(self.f.node):
+            if isinstance(n, ast.Compare) and len(n.ops) == 1 and isinstance(n.ops[0], (ast.In, ast.NotIn)) and \
+                    match(f"{self.task}.id", n.left) and src(n.comparators[0]) == self.memo:
+                return ('late', n, None)
+        return None
+
+    def memo_skip_nodes(self):
+        """cfg nodes through which the pass leaves without scheduling because the task is in the memo"""
+        sc = self.memo_shortcut()
+        if sc is None or sc[0] == 'late':
+            return None
+        if sc[0] == 'return':
+            n = self.cfg.node_of(sc[2])
+            return {n.id} if n is not None else None
+        out = set()
+        for b in self.cfg.nodes:
+            if b.kind == 'branch' and b.test is sc[1].test and b.polarity is False:
+                out.add(b.id)
+        return out or None
+
     # ---- recursive calls
+    def call_iter(self, c):
+        """(for statement, expression of the collection) whose elements are the task argument of pass call c:
+        `for x in X: pass(x)`, `for i, x in enumerate(X): pass(x)`, `for i in range(len(X)) / reversed(range(len(X))) /
+        range(len(X) - 1, -1, -1): pass(X[i])`; None when the call is not made once per element of a collection"""
+        fo = for_loop_of(self.f, c)
+        if fo is None or not c.args:
+            return None
+        a = c.args[0]
+        if isinstance(fo.target, ast.Name) and isinstance(a, ast.Name) and a.id == fo.target.id:
+            return fo, fo.iter
+        if isinstance(fo.target, ast.Tuple) and len(fo.target.elts) == 2 and isinstance(a, ast.Name) and \
+                isinstance(fo.target.elts[1], ast.Name) and fo.target.elts[1].id == a.id:
+            m = match("enumerate($x)", fo.iter)
+            if m:
+                return fo, m['x']
+        if isinstance(a, ast.Subscript) and isinstance(a.slice, ast.Name) and isinstance(fo.target, ast.Name) and a.slice.id == fo.target.id:
+            it = fo.iter
+            m = match("reversed($r)", it)
+            if m:
+                it = m['r']
+            m = match("range(len($x))", it) or match("range(0, len($x))", it) or match("range(len($x) - 1, -1, -1)", it)
+            if m and same(m['x'], a.value):
+                return fo, a.value
+        return None
+
     def pass_calls(self):
         out = []
         for c in facts.calls_named(self.f, self.pname):
@@ -360,9 +466,12 @@ class PassShape:
                         ast.fix_missing_locations(value)
                 args = facts.flatten_lattice(value, self.lat)
                 other_lat = facts.flatten_lattice(value, 'min' if self.lat == 'max' else 'max')
+                at = self.cfg.node_of(n)
                 for kind, a in (('ok', args), ('flipped', other_lat)):
                     if not a:
                         continue
+                    # a hoisted sequence (`ends = [x.end for x in deps if ..]; max(ends + [bound])`) stands for its comprehension
+                    a = [self._hoisted_seq(x, at) for x in a]
                     for x in a:
                         parts = facts.comp_parts(x)
                         if parts and match(f"$t.{self.end_attr}", parts[0]) and isinstance(parts[1], ast.Name) and \
@@ -370,20 +479,142 @@ class PassShape:
                             return {'stmt': n, 'name': n.targets[0].id, 'args': a, 'comp': x, 'parts': parts, 'kind': kind, 'value': value}
         return None
 
+    def _mutated_in_place(self, name):
+        for n in walk_no_nested(self.f.node):
+            if isinstance(n, ast.Call) and isinstance(n.func, ast.Attribute) and isinstance(n.func.value, ast.Name) and \
+                    n.func.value.id == name and n.func.attr in ('extend', 'append', 'update', 'add', 'insert', 'remove', 'pop', 'clear',
+                                                                'sort', 'reverse'):
+                return True
+        return any(d.kind == 'aug' for d in self.fl.defs_of(name))
+
+    def _hoisted_seq(self, x, at):
+        """a local name whose unique definition is a comprehension (never mutated afterwards) -> that comprehension"""
+        if isinstance(x, ast.Name) and at is not None and x.id not in self.f.params:
+            d = self.fl.unique_def(x.id, at)
+            if d is not None and d.kind == 'assign' and d.value is not None and facts.comp_parts(d.value) and \
+                    len(self.fl.defs_of(x.id)) == 1 and not self._mutated_in_place(x.id):
+                return d.value
+        return x
+
+    def _beta(self, e, at):
+        """`f(a)` where local f is bound once to `lambda p: body` -> body[p := a] (left behind by helper inlining)"""
+        if isinstance(e, ast.Call) and isinstance(e.func, ast.Name) and not e.keywords and at is not None:
+            ds = self.fl.defs_of(e.func.id)
+            if len(ds) == 1 and ds[0].kind == 'assign' and isinstance(ds[0].value, ast.Lambda):
+                lam = ds[0].value
+                ps_ = [a.arg for a in lam.args.args]
+                if len(ps_) == len(e.args) and not lam.args.vararg and not lam.args.kwarg and not lam.args.kwonlyargs:
+                    from sa.flow import subst
+                    return subst(lam.body, dict(zip(ps_, e.args)))
+        return e
+
+    def owners_of(self, e, at, depth=0):
+        """which link owners a sequence expression ranges over: subset of {'own', 'all', 'direct'} (the task itself, all its
+        ancestors, its direct parent only) or None when the expression is not understood"""
+        task = self.task
+        if depth > 6:
+            return None
+        if isinstance(e, ast.Call) and isinstance(e.func, ast.Name) and e.func.id in ('list', 'tuple', 'iter', 'reversed') and len(e.args) == 1:
+            return self.owners_of(e.args[0], at, depth + 1)
+        if isinstance(e, ast.Call) and (match("itertools.chain($*a)", e) or match("chain($*a)", e)):
+            out = set()
+            for a in e.args:
+                r = self.owners_of(a, at, depth + 1)
+                if r is None:
+                    return None
+                out |= r
+            return out
+        if match(f"{task}.all_parents", e):
+            return {'all'}
+        parts = facts.comp_parts(e)
+        if parts and isinstance(e, (ast.ListComp, ast.GeneratorExp)):
+            elt, tgt, it, ifs = parts
+            if isinstance(elt, ast.Name) and isinstance(tgt, ast.Name) and elt.id == tgt.id:
+                r = self.owners_of(it, at, depth + 1)
+                if r is not None and ifs and 'all' in r:
+                    return (r - {'all'}) | {'partial'}       # a filtered part of the ancestors
+                return r if not ifs else None
+            return None
+        if isinstance(e, ast.Subscript) and isinstance(e.slice, ast.Slice):
+            r = self.owners_of(e.value, at, depth + 1)
+            if e.slice.lower is None and e.slice.upper is None:
+                return r                                     # x[:] / x[::-1]: every element
+            if r is not None and 'all' in r:
+                return (r - {'all'}) | {'partial'}           # a slice of the ancestors
+            return None
+        if isinstance(e, (ast.List, ast.Tuple)):
+            out = set()
+            for el in e.elts:
+                if isinstance(el, ast.Starred):
+                    r = self.owners_of(el.value, at, depth + 1)
+                    if r is None:
+                        return None
+                    out |= r
+                elif isinstance(el, ast.Name) and el.id == task:
+                    out.add('own')
+                elif match(f"{task}.parent", el):
+                    out.add('direct')
+                else:
+                    return None
+            return out
+        if isinstance(e, ast.BinOp) and isinstance(e.op, ast.Add):
+            a, b = self.owners_of(e.left, at, depth + 1), self.owners_of(e.right, at, depth + 1)
+            return None if a is None or b is None else a | b
+        if isinstance(e, ast.Name) and at is not None and e.id not in self.f.params:
+            d = self.fl.unique_def(e.id, at)
+            if d is not None and d.kind == 'assign' and d.value is not None and len(self.fl.defs_of(e.id)) == 1 and \
+                    not self._mutated_in_place(e.id):
+                return self.owners_of(d.value, d.node, depth + 1)
+        return None
+
+    def _owner_tag(self, owners, it):
+        if owners is None:
+            return 'unknown:' + src(it)
+        return frozenset(owners)
+
     def collection_sources(self, iter_expr, at_node):
         """which tasks the prerequisite collection ranges over.  Returns dict(own=bool, ancestors=bool, var=name or None,
         defs=[...], filtered=[...], unknown=[...])"""
         task, rel = self.task, self.rel
         res = {'own': False, 'ancestors': False, 'var': None, 'defs': [], 'filtered': [], 'unknown': [], 'setlike': []}
 
-        def classify_seq(e, ctxvars):
+        def via_owner(tag, e0):
+            """`<v>.<rel>` where v ranges over the link owners described by tag"""
+            if not isinstance(tag, frozenset):
+                res['unknown'].append(e0)
+                return
+            if 'own' in tag:
+                res['own'] = True
+            if 'all' in tag:
+                res['ancestors'] = 'all'
+            elif 'partial' in tag:
+                if res['ancestors'] != 'all':
+                    res['ancestors'] = 'only a filtered or sliced part of the ancestors'
+            elif 'direct' in tag:
+                if res['ancestors'] != 'all':
+                    res['ancestors'] = 'direct-parent-only'
+
+        def classify_seq(e, ctxvars, at):
             """e is an expression yielding tasks: classify as own / ancestors(parent var) / unknown"""
             e0 = e
+            e = self._beta(e, at)
             if isinstance(e, ast.Call) and isinstance(e.func, ast.Name) and e.func.id in ('list', 'tuple') and len(e.args) == 1:
-                e = e.args[0]
+                e = self._beta(e.args[0], at)
             if isinstance(e, ast.Call) and isinstance(e.func, ast.Name) and e.func.id in ('set', 'frozenset'):
                 res['setlike'].append(e0)
                 e = e.args[0] if e.args else e
+            # [d for owner in OWNERS for d in owner.<rel>]
+            if isinstance(e, (ast.ListComp, ast.GeneratorExp)) and len(e.generators) == 2:
+                g0, g1 = e.generators
+                if isinstance(g0.target, ast.Name) and isinstance(g1.target, ast.Name) and isinstance(e.elt, ast.Name) and \
+                        e.elt.id == g1.target.id:
+                    if g0.ifs or g1.ifs:
+                        res['filtered'].append(e0)
+                    tag = self._owner_tag(self.owners_of(g0.iter, at), g0.iter)
+                    classify_seq(g1.iter, dict(ctxvars, **{g0.target.id: tag}), at)
+                    return
+                res['unknown'].append(e0)
+                return
             parts = facts.comp_parts(e)
             if isinstance(e, ast.SetComp):
                 res['setlike'].append(e0)
@@ -394,21 +625,33 @@ class PassShape:
                     return
                 if ifs:
                     res['filtered'].append(e0)
-                e = it
+                e = self._beta(it, at)
             if match(f"{task}.{rel}", e):
                 res['own'] = True
             elif isinstance(e, ast.Attribute) and e.attr == rel and isinstance(e.value, ast.Name) and e.value.id in ctxvars:
-                res['ancestors'] = ctxvars[e.value.id]
+                via_owner(ctxvars[e.value.id], e0)
             elif isinstance(e, (ast.List, ast.Tuple)) and not e.elts:
                 pass
             elif isinstance(e, ast.BinOp) and isinstance(e.op, ast.Add):
-                classify_seq(e.left, ctxvars)
-                classify_seq(e.right, ctxvars)
+                classify_seq(e.left, ctxvars, at)
+                classify_seq(e.right, ctxvars, at)
+            elif isinstance(e, ast.Name) and at is not None and e.id not in self.f.params and len(self.fl.defs_of(e.id)) == 1 and \
+                    self.fl.unique_def(e.id, at) is not None and self.fl.unique_def(e.id, at).kind == 'assign' and \
+                    self.fl.unique_def(e.id, at).value is not None and not self._mutated_in_place(e.id):
+                d = self.fl.unique_def(e.id, at)
+                classify_seq(d.value, ctxvars, d.node)
             else:
                 res['unknown'].append(e0)
 
+        def loop_ctxvars(cn):
+            ctxvars = {}
+            for fo in (self.cfg.enclosing_fors(cn) if cn is not None else []):
+                if isinstance(fo.target, ast.Name):
+                    ctxvars[fo.target.id] = self._owner_tag(self.owners_of(fo.iter, self.cfg.node_of(fo)), fo.iter)
+            return ctxvars
+
         if not isinstance(iter_expr, ast.Name):
-            classify_seq(iter_expr, {})
+            classify_seq(iter_expr, {}, at_node)
             return res
         var = iter_expr.id
         res['var'] = var
@@ -426,25 +669,13 @@ class PassShape:
         res['defs'] = list(defs)
         for d in defs:
             if d.kind == 'assign' and d.value is not None:
-                classify_seq(d.value, {})
+                classify_seq(d.value, {}, d.node)
             elif d.kind == 'aug':
                 if not isinstance(d.stmt.op, ast.Add):
                     res['unknown'].append(d.stmt)
                     continue
-                # enclosing loop over the ancestors of the task
-                loops = self.cfg.enclosing_fors(d.node)
-                ctxvars = {}
-                for fo in loops:
-                    if isinstance(fo.target, ast.Name):
-                        it = self.ex.expand(fo.iter, self.cfg.node_of(fo))
-                        if match(f"{task}.all_parents", it) or match(f"list({task}.all_parents)", it) or \
-                                match(f"[$x for $x in {task}.all_parents]", it):
-                            ctxvars[fo.target.id] = 'all'
-                        elif match(f"[{task}.parent]", it):
-                            ctxvars[fo.target.id] = 'direct-parent-only'
-                        else:
-                            ctxvars[fo.target.id] = 'unknown:' + src(it)
-                classify_seq(d.stmt.value, ctxvars)
+                # enclosing loop over the link owners (the ancestors of the task, possibly with the task itself)
+                classify_seq(d.stmt.value, loop_ctxvars(d.node), d.node)
             elif d.kind == 'param':
                 res['unknown'].append(ast.Name(id=var))
             else:
@@ -454,20 +685,13 @@ class PassShape:
             if isinstance(n, ast.Call) and isinstance(n.func, ast.Attribute) and isinstance(n.func.value, ast.Name) and \
                     n.func.value.id == var and n.func.attr in ('extend', 'append', 'update', 'add', 'insert') and n.args:
                 cn = self.cfg.node_containing(n)
-                loops = self.cfg.enclosing_fors(cn) if cn is not None else []
-                ctxvars = {}
-                for fo in loops:
-                    if isinstance(fo.target, ast.Name):
-                        it = self.ex.expand(fo.iter, self.cfg.node_of(fo))
-                        ctxvars[fo.target.id] = 'all' if (match(f"{task}.all_parents", it) or match(f"list({task}.all_parents)", it)) \
-                            else 'unknown:' + src(it)
                 if n.func.attr in ('update', 'add'):
                     res['setlike'].append(n)
                 a = n.args[-1]
                 if n.func.attr in ('append', 'add', 'insert'):
                     res['unknown'].append(n)      # single element insertion: not a recognised collection idiom
                 else:
-                    classify_seq(a, ctxvars)
+                    classify_seq(a, loop_ctxvars(cn), cn)
                 res['defs'].append(n)
         return res
 
@@ -505,6 +729,26 @@ def expr_cases(e: ast.AST, depth: int = 0):
             out.append(([(e.test, False)] + c, v))
         return out
     return [([], e)]
+
+
+def strip_seq_copy(e: ast.AST) -> ast.AST:
+    """list(x) / tuple(x) -> x (an order preserving copy of a sequence)"""
+    while isinstance(e, ast.Call) and isinstance(e.func, ast.Name) and e.func.id in ('list', 'tuple') and len(e.args) == 1 and not e.keywords:
+        e = e.args[0]
+    return e
+
+
+def whole_seq(e: ast.AST) -> ast.AST:
+    """the sequence all of whose elements e ranges over: list(x), tuple(x), reversed(x), sorted(x[, key]), x[:], x[::-1] -> x"""
+    for _ in range(6):
+        if isinstance(e, ast.Call) and isinstance(e.func, ast.Name) and e.func.id in ('list', 'tuple', 'reversed', 'sorted', 'iter') and \
+                len(e.args) == 1:
+            e = e.args[0]
+        elif isinstance(e, ast.Subscript) and isinstance(e.slice, ast.Slice) and e.slice.lower is None and e.slice.upper is None:
+            e = e.value
+        else:
+            break
+    return e
 
 
 def is_emptiness(test: ast.AST, pol: bool):
